@@ -96,17 +96,14 @@ Definition spec_run (c : case) : expect :=
       if chr_start_sorted es && (0 <=? d) && (geo || forallb (entry_good s) es)
       then placed c (RIvs (map triple (spec_merged s d es)))
       else Either (RIvs (map triple (spec_merged s d es)))
-  | OClip false => MustBe (RIvs (map triple (spec_clip s es)))
-  | OClip true =>     (* Geometry.clip also keeps an interval lying entirely outside inside [0,size] *)
-      MustBe (RIvs (map triple (map (fun e => let z := size_of s (e_chr e) in
-                                              set_se e (Z.min (Z.max 0 (e_start e)) z) (Z.max (Z.min z (e_stop e)) 0)) es)))
+  | OClip _ => MustBe (RIvs (map triple (spec_clip s es)))
   | OExtend _ n => MustBe (RIvs (map triple (spec_extend s n es)))
   | OSorted false => Rel (fun r => match r with RIvs l => spec_sorted_ok true (map triple es) l | _ => false end)
   | OSorted true =>
       match placed c (RIvs []) with
       | MustErr => MustErr
-      | MustBe _ => Rel (fun r => match r with RIvs l => spec_sorted_ok false (map triple es) l | _ => false end)
-      | _ => Rel (fun r => is_err r || match r with RIvs l => spec_sorted_ok false (map triple es) l | _ => false end)
+      | MustBe _ => Rel (fun r => match r with RIvs l => spec_sorted_ok true (map triple es) l | _ => false end)
+      | _ => Rel (fun r => is_err r || match r with RIvs l => spec_sorted_ok true (map triple es) l | _ => false end)
       end
   | OLocation st w => MustBe (RPos (map (fun e => (e_chr e, spec_location st w e)) es))
   | OWindows l r => MustBe (RIvs (map triple (spec_windows s l r es)))
